@@ -90,6 +90,11 @@ func (self Program) String() string {
 		singletonTypes += "\n"
 	}
 
+	implBlocks := ""
+	for _, impl := range self.ImplBlocks {
+		implBlocks += impl.String() + "\n\n"
+	}
+
 	globals := ""
 	for _, glob := range self.Globals {
 		globals += glob.String()
@@ -103,5 +108,5 @@ func (self Program) String() string {
 		functions = append(functions, fn.String())
 	}
 
-	return fmt.Sprintf("%s%s%s%s%s", imports, types, singletonTypes, globals, strings.Join(functions, "\n\n"))
+	return fmt.Sprintf("%s%s%s%s%s%s", imports, types, singletonTypes, implBlocks, globals, strings.Join(functions, "\n\n"))
 }
